@@ -2,7 +2,7 @@
 """Re-runs, for every seeded change, the obligation recorded as catching it (seeded/<id>/meta.json: detected_by) against a scratch worktree
 with the patch applied.  usage: seed_sweep.py [-j N] [seed-prefix ...]   - prints one line per seed, exit 1 if a seed is no longer caught"""
 import json, glob, os, re, subprocess, sys, concurrent.futures as cf
-V = '/verif'; BASES = ['HEAD', '2c1e760', 'c0e616f', '8bedccd', '136c6c4', '04ae786', 'd94588c', '3d7b38f', '4e17f08', 'a4e4220', '2615da6', '76de7d4']
+V = '/verif'; BASES = ['HEAD', '1e663ca', '2c1e760', 'c0e616f', '8bedccd', '136c6c4', '04ae786', 'd94588c', '3d7b38f', '4e17f08', 'a4e4220', '2615da6', '76de7d4']
 def plan(meta):
     det = meta.get('detected_by', '')
     m = re.search(r'\b(C\d\d)\s+(O\d+\.\d+[A-Za-z0-9_.+-]*)', det)
